@@ -2444,7 +2444,15 @@ fn apply(c: &Cell, g: &Gen, d: &mut Dice) -> Option<Applied> {
                 // `ignore` next to a negated parameter and a positive one (three parameters, any order): still a contradiction
                 if has_ignore && c.fam == Fam::Error && d.chance(40) {
                     let used: Vec<String> = order.iter().filter_map(|a| match a { Arg::Flag(s) if s != "ignore" => Some(s.clone()), _ => None }).collect();
-                    if let Some(other) = ["source", "backtrace"].iter().find(|o| !used.iter().any(|u| u == *o)) {
+                    if d.chance(50) {
+                        // (both selectors, the earlier slot negated)
+                        order = vec![Arg::flag("ignore"), Arg::call("not", &["source"]), Arg::flag("backtrace")];
+                        let k = d.pick(3);
+                        order.rotate_left(k);
+                        if d.chance(50) {
+                            order.swap(0, 1);
+                        }
+                    } else if let Some(other) = ["source", "backtrace"].iter().find(|o| !used.iter().any(|u| u == *o)) {
                         let at = d.pick(order.len() + 1);
                         order.insert(at, Arg::call("not", &[other]));
                     }
